@@ -11,6 +11,7 @@ package main
 //	           closures and temporaries at several operand-stack depths
 import (
 	"fmt"
+	"sort"
 	"strings"
 )
 
@@ -49,6 +50,33 @@ func callShapePrograms() []string {
 			}
 		}
 	}
+	return out
+}
+
+// aliasPrograms: the SAME object as receiver and argument, as both operands, as
+// container and element, while it is being iterated -- each with a finite step budget
+func aliasPrograms() []string {
+	var out []string
+	mk := map[string]string{"list": "[1, 2, 3]", "dict": "{\"a\": 1, \"b\": 2}", "set": "set([1, 2, 3])", "tuple": "(1, 2, 3)", "string": "\"abc\"", "bytes": "b\"abc\"", "empty": "[]"}
+	stmts := []string{
+		"x.extend(x)", "x += x", "x = x + x", "x *= 2", "x.append(x)", "x.insert(0, x)", "x.remove(x)", "x.index(x)", "y = x.count(x) if type(x) == \"string\" else 0",
+		"x.update(x)", "x |= x", "x &= x", "x -= x", "x ^= x", "y = x | x", "y = x & x", "y = x.union(x)", "y = x.intersection(x)", "y = x.difference(x)", "y = x.symmetric_difference(x)", "y = x.issubset(x)", "y = x.issuperset(x)",
+		"x[0:0] = x", "x[x[0]] = x", "x.setdefault(\"k\", x)", "y = x.get(x)", "y = x == x", "y = x < x", "y = x in x", "y = sorted(x, key = lambda e: x)", "y = zip(x, x, x)", "y = dict(zip(x, x))", "y = list(x) + list(x)",
+		"y = x.join(x)", "y = x.replace(x, x)", "y = x.split(x)", "y = x.strip(x)", "y = x.format(x, x = x)", "y = x % x", "y = x.startswith(x)", "y = x.partition(x)", "y = max(x, x)", "y = [x, x] * 2", "y = {1: x, 2: x}", "y = struct(a = x, b = x)", "y = json.encode([x, x])",
+		"def f(a, b = x, *c, **d): return (a, b, c, d)\ny = f(x, x, x, k = x)", "y = (lambda v = x: v)() == x",
+	}
+	for kind, lit := range mk {
+		for _, st := range stmts {
+			for _, wrap := range []string{"%s", "def g(x):\n    %s\n    return x\nz = g(x)", "for e in x:\n    %s\n    break"} {
+				body := strings.ReplaceAll(st, "\n", "\n    ")
+				if wrap == "%s" {
+					body = st
+				}
+				out = append(out, "# "+kind+"\nx = "+lit+"\n"+fmt.Sprintf(wrap, body)+"\nw = str(x)[:50]\n")
+			}
+		}
+	}
+	sort.Strings(out)
 	return out
 }
 
